@@ -259,6 +259,12 @@ class PeerSim(object):
                     ans.status = status
                     self._collect_mosek_answer(task, cap, ans)
                     return
+                if prosta in (mosek.prosta.unknown, mosek.prosta.ill_posed):
+                    # undetermined status without values: the solution is undefined
+                    task.sol = None
+                    task.prosta_value = prosta
+                    ans.status = status
+                    return
                 # certificate-like content: numbers are present but are not a solution
                 rng = self._rng()
                 xx = 1.0 + np.abs(rng.standard_normal(task.nvar))
